@@ -13,6 +13,7 @@ var soupTokens = []string{
 	`""`, `"s"`, `"a\"b"`, `"a\\"`, `"\n"`, `"unterminated`, `"`, `"\q"`, `"\x41"`, `"é"`,
 	"¬", "¬¬", "¬raw¬", "¬a¬¬b¬", "¬{\"k\": 1}¬", "¬unterminated", "¬\n¬",
 	"$x", "$1", "$", "$MODULE", "$a-b_c", "-$x",
+	";; $MODULE m", ";; $MODULE ", ";; $x 1", ";; $x", ";; $", ";;", "; c",
 	"; comment\n", ";; $x 1\n", ";; $MODULE m\n", ";", ";; $a $b\n", ";; $x\n", ";; x 1\n",
 	"\n", "\r\n", "\t", " ", "  ", "\x00", "\xff", "\xc3", "\xef\xbb\xbf", "ʞ", "ʞkw", "é", "世", "λ",
 	"(+ 1 2)", "[1 2]", "{:a 1}", "#{:a}", "(def a 1)", "'x", "^{:m 1} [1]", "@a", "`(~a ~@b)", "«atom 1»", "«»", "«1»", "«foo»", "{:a}", "{1 2}", "#{1}",
